@@ -1,1 +1,14 @@
-fn main() {}
+//! Harness for the PoA consensus module: C24 (block production task) and C15 (block rules).
+mod poa;
+mod rules;
+use h_common::*;
+
+fn main() {
+    let args = Args::parse();
+    match args.mode.as_str() {
+        "run" => poa::run(&args),
+        "random" => poa::random(&args),
+        "rules" => rules::run(&args),
+        other => die(&format!("unknown mode {other}")),
+    }
+}
